@@ -92,7 +92,8 @@ CONTENT = ("tokens", "strings", "comments", "pragmas")
 def explain(op, what, g_src, g_doc):
     """Ids of the OPEN findings that explain a failure of `op` (`what` differs / happened), given the guards
     the model computed for the source document (g_src) and for the document the request ran on (g_doc).
-    Repaired findings (glue hazards, panic, multi-line pragma, colon in literal, range index, stray CR)
+    Repaired findings (glue hazards, panic, multi-line pragma, colon in literal, range index, stray CR, assignment
+    operator found by text search)
     explain nothing any more: their witnesses are still run, and a failure there is a violation."""
     both = g_src | g_doc
     out = set()
@@ -105,11 +106,7 @@ def explain(op, what, g_src, g_doc):
             out.add("C15-exotic-space")
         if "irregular-token" in g_src and what == "tokens":
             out.add("C15-lexer-context-dependent-token")
-        if "assign-op-in-token" in g_src and what == "tokens":
-            out.add("C15-align-assign-op-in-token")
     elif op == "idem":
-        if "assign-op-in-token" in both:
-            out.add("C15-align-assign-op-in-token")
         if "wrapped" in both:
             out.add("C15-wrap-not-idempotent")
         if "open-ended-error-token" in both:
@@ -327,7 +324,7 @@ def replay(obj):
 
 MANIFEST["level_text"] = (
     "Proved in Lean 4, unbounded, about a function-by-function model of both formatters (as repaired by 0cc0118, 2b1ad0b, "
-    "997b5b5, b483235, 26b5189, 944815f, 6232ed3) whose glue table, keyword lists, block tables and vendor profiles are "
+    "997b5b5, b483235, 26b5189, 944815f, 6232ed3, PENDING-C15-align-assign) whose glue table, keyword lists, block tables and vendor profiles are "
     "regenerated from the Rust source on every run: (1) c15_line_tokens - IN FULL: the text format_line_tokens returns (glued "
     "text when the re-lex guard accepts it, one-space fallback otherwise) lexes to exactly the tokens it was made from, keywords "
     "re-cased (c15_recase), for every list of valid tokens, every style and keyword case, relative to the abstract lexer "
@@ -341,11 +338,12 @@ MANIFEST["level_text"] = (
     "the indent never underflows; (5) web formatter: c15_web_lines, c15_web_nonws, c15_web_idempotent - IN FULL for every text; "
     "(6) c15_relex_guard_needed_without_paren_or_dot - the re-lex guard cannot be restricted to compact style or to lines with "
     "`(` `.` `..`: in spaced style exactly seven further class pairs (keyword / identifier / integer + `#`, temporal prefix + sign / "
-    "number) are glued unsafely; c15_align_assign_partial - align_assignment_ops inserts white space only, for every list of lines. "
+    "number) are glued unsafely; c15_align_assign - align_assignment_ops inserts white space only, for every list of lines - and "
+    "c15_align_assign_at_token - at the start of the line's first Assign / Arrow token (find_assignment_op as repaired by "
+    "PENDING-C15-align-assign; the former witness `a <= > b;` in compact style is a fixed witness case that must pass). "
     "Still violated by the code, each with a proved counterexample or a replayed witness and an OPEN entry in "
     "known_findings.json: LSP formatting is not idempotent after wrapping (c15_wrap_idempotent_counterexample), the web "
-    "formatter re-indents the interior of multi-line comments / pragmas (c15_web_comment_counterexample), in compact style the "
-    "assignment alignment pads inside the token pair `<=` `>` (text search finds \"=>\"; c15_align_assign_counterexample), open-ended Error "
+    "formatter re-indents the interior of multi-line comments / pragmas (c15_web_comment_counterexample), open-ended Error "
     "tokens, Unicode white space Error tokens, context-dependent lexer labels."
 )
 MANIFEST["level_note"] = (
